@@ -2,6 +2,7 @@ package main
 
 import (
 	"bytes"
+	"os"
 	"errors"
 	"crypto/ed25519"
 	"encoding/json"
@@ -301,11 +302,23 @@ func genKMS(r *hx.Rng, c *Case, g, n int) {
 
 // ---------- wallet session manager ----------
 
-type sessInst struct{ m *wallet.VerifSessionManager }
+type sessInst struct {
+	m   *wallet.VerifSessionManager
+	tok [16]map[int]string // per goroutine: token number -> token string (of its own successful creates)
+}
+
+func newSessInst(Case, *ctl) (Inst, error) {
+	w := &sessInst{m: wallet.NewVerifSessionManager()}
+	for i := range w.tok {
+		w.tok[i] = map[int]string{}
+	}
+
+	return w, nil
+}
 
 func (w *sessInst) Close() {}
 
-func (w *sessInst) Exec(_ int, o *Op) Out {
+func (w *sessInst) Exec(g int, o *Op) Out {
 	u := fmt.Sprintf("user-%d", o.U)
 
 	switch o.Kind {
@@ -319,14 +332,44 @@ func (w *sessInst) Exec(_ int, o *Op) Out {
 			return Out{Kind: "err", Err: err.Error()}
 		}
 
-		_ = tok
+		w.tok[g][o.M] = tok
 
 		return Out{Kind: "token"}
 	case "sclose":
 		return Out{Kind: "closed", B: w.m.Close(u)}
+	case "sget":
+		// getSession with the token one of this goroutine's own creates returned (none: that create failed)
+		tok := w.tok[g][o.M]
+		if tok == "" {
+			return Out{Kind: "invalid"}
+		}
+
+		if _, err := w.m.User(tok); err != nil {
+			return Out{Kind: "invalid", Err: err.Error()}
+		}
+
+		return Out{Kind: "live"}
 	}
 
 	return Out{Kind: "err"}
+}
+
+type sessState struct{ m map[int]int } // user -> token number
+
+func (s *sessState) Key() string {
+	ks := make([]int, 0, len(s.m))
+	for k := range s.m {
+		ks = append(ks, k)
+	}
+
+	sort.Ints(ks)
+
+	var b strings.Builder
+	for _, k := range ks {
+		fmt.Fprintf(&b, "%d:%d;", k, s.m[k])
+	}
+
+	return b.String()
 }
 
 type setState struct{ m map[int]bool }
@@ -342,16 +385,24 @@ func (s *setState) Key() string {
 	return fmt.Sprint(ks)
 }
 
+func minInt(a, b int) int {
+	if a < b {
+		return a
+	}
+
+	return b
+}
+
 type sessModel struct{}
 
-func (sessModel) Init() State { return &setState{m: map[int]bool{}} }
+func (sessModel) Init() State { return &sessState{m: map[int]int{}} }
 
 func (sessModel) Step(st State, o Op, got Out) (State, bool) {
-	s, _ := st.(*setState)
-	cp := func(f func(m map[int]bool)) *setState {
-		n := &setState{m: map[int]bool{}}
-		for k := range s.m {
-			n.m[k] = true
+	s, _ := st.(*sessState)
+	cp := func(f func(m map[int]int)) *sessState {
+		n := &sessState{m: map[int]int{}}
+		for k, v := range s.m {
+			n.m[k] = v
 		}
 
 		f(n.m)
@@ -359,19 +410,29 @@ func (sessModel) Step(st State, o Op, got Out) (State, bool) {
 		return n
 	}
 
+	_, live := s.m[o.U]
+
 	switch o.Kind {
 	case "screate":
-		if s.m[o.U] {
+		if live {
 			return s, got.Kind == "already"
 		}
 
-		return cp(func(m map[int]bool) { m[o.U] = true }), got.Kind == "token"
+		return cp(func(m map[int]int) { m[o.U] = o.M }), got.Kind == "token"
 	case "sclose":
-		if s.m[o.U] {
-			return cp(func(m map[int]bool) { delete(m, o.U) }), got.Kind == "closed" && got.B
+		if live {
+			return cp(func(m map[int]int) { delete(m, o.U) }), got.Kind == "closed" && got.B
 		}
 
 		return s, got.Kind == "closed" && !got.B
+	case "sget":
+		for _, t := range s.m {
+			if t == o.M {
+				return s, got.Kind == "live"
+			}
+		}
+
+		return s, got.Kind == "invalid"
 	}
 
 	return s, false
@@ -381,9 +442,13 @@ func coqSess(_ Case, h []Ev, w []int) string {
 	items := make([]string, len(h))
 
 	for i, e := range h {
-		op := fmt.Sprintf("SCreate %d", e.Op.U)
-		if e.Op.Kind == "sclose" {
+		op := fmt.Sprintf("SCreate %d %d", e.Op.U, e.Op.M)
+
+		switch e.Op.Kind {
+		case "sclose":
 			op = fmt.Sprintf("SClose %d", e.Op.U)
+		case "sget":
+			op = fmt.Sprintf("SGet %d", e.Op.M)
 		}
 
 		out := "SToken"
@@ -391,6 +456,10 @@ func coqSess(_ Case, h []Ev, w []int) string {
 		switch e.Out.Kind {
 		case "already":
 			out = "SAlready"
+		case "live":
+			out = "SLive true"
+		case "invalid":
+			out = "SLive false"
 		case "closed":
 			out = "SClosed " + hx.CoqBool(e.Out.B)
 		case "err":
@@ -408,15 +477,27 @@ func coqSess(_ Case, h []Ev, w []int) string {
 
 func genSess(r *hx.Rng, c *Case, g, n int) {
 	c.Threads = make([][]Op, g)
+	tok := 0
 
 	for t := 0; t < g; t++ {
+		var mine []int
+
 		for i := 0; i < n; i++ {
-			k := "screate"
-			if r.Intn(5) < 2 {
-				k = "sclose"
+			k := []string{"screate", "screate", "sclose", "sclose", "sget", "sget", "sget"}[r.Intn(7)]
+			if k == "sget" && len(mine) == 0 {
+				k = "screate"
 			}
 
-			c.Threads[t] = append(c.Threads[t], Op{Kind: k, U: 1 + r.Intn(2)})
+			switch k {
+			case "screate":
+				tok++
+				mine = append(mine, tok)
+				c.Threads[t] = append(c.Threads[t], Op{Kind: k, U: 1 + r.Intn(2), M: tok})
+			case "sclose":
+				c.Threads[t] = append(c.Threads[t], Op{Kind: k, U: 1 + r.Intn(2)})
+			default:
+				c.Threads[t] = append(c.Threads[t], Op{Kind: k, M: mine[len(mine)-1-r.Intn(minInt(2, len(mine)))]})
+			}
 		}
 	}
 }
@@ -724,6 +805,62 @@ func (w *didInst) Exec(_ int, o *Op) (out Out) {
 
 		var m int
 		if n, _ := fmt.Sscanf(id, "did:example:%d", &m); n != 1 {
+			m = 77
+		}
+
+		return Out{Kind: "mat", V: m}
+	}
+
+	return Out{Kind: "err"}
+}
+
+// ---------- wallet content store: safeSave stores only when the key is absent ----------
+
+type wcontInst struct{ v *wallet.VerifContents }
+
+var wcontSeq int //nolint:gochecknoglobals
+
+func newWContInst(_ Case, ct *ctl) (Inst, error) {
+	wcontSeq++
+
+	v, err := wallet.NewVerifContents(&yProvider{inner: mem.NewProvider(), c: ct}, fmt.Sprintf("c13-profile-%d-%d", os.Getpid(), wcontSeq))
+	if err != nil {
+		return nil, err
+	}
+
+	return &wcontInst{v: v}, nil
+}
+
+func (w *wcontInst) Close() { w.v.Close() }
+
+func (w *wcontInst) Exec(_ int, o *Op) (out Out) {
+	defer func() {
+		if r := recover(); r != nil {
+			out = Out{Kind: "panic", Err: fmt.Sprint(r)}
+		}
+	}()
+
+	key := fmt.Sprintf("content-%d", o.ID)
+
+	switch o.Kind {
+	case "dsave":
+		if err := w.v.SafeSave(key, []byte(fmt.Sprintf("c%d", o.M))); err != nil {
+			return Out{Kind: "err", Err: err.Error()}
+		}
+
+		return Out{Kind: "id", S: impID(o.ID)}
+	case "dbyname":
+		b, err := w.v.Get(key)
+		if err != nil {
+			if errors.Is(err, spi.ErrDataNotFound) {
+				return Out{Kind: "notfound"}
+			}
+
+			return Out{Kind: "err", Err: err.Error()}
+		}
+
+		var m int
+		if n, _ := fmt.Sscanf(string(b), "c%d", &m); n != 1 {
 			m = 77
 		}
 
@@ -1582,11 +1719,12 @@ func components() map[string]*Comp {
 		"kms": {Name: "kms", Forced: true, New: newKMSInst, Model: func(Case) Model { return kmsModel{} }, Gen: genKMS, Coq: coqKMS},
 		"sess": {
 			Name:  "sess",
-			New:   func(Case, *ctl) (Inst, error) { return &sessInst{m: wallet.NewVerifSessionManager()}, nil },
+			New:   newSessInst,
 			Model: func(Case) Model { return sessModel{} }, Gen: genSess, Coq: coqSess,
 		},
 		"prov":  {Name: "prov", Forced: true, New: newProvInst, Model: func(Case) Model { return provModel{} }, Gen: genProv, Coq: coqProv},
 		"did":   {Name: "did", Forced: true, New: newDIDInst, Model: func(Case) Model { return didModel{} }, Gen: genDID, Coq: coqDID},
+		"wcont": {Name: "wcont", Forced: true, New: newWContInst, Model: func(Case) Model { return didModel{} }, Gen: genDID, Coq: coqDID},
 		"msg":   {Name: "msg", Forced: true, New: newMsgInst, Model: func(Case) Model { return msgModel{} }, Gen: genMsg, Coq: coqMsg},
 		"reg":   {Name: "reg", New: newRegInst, Model: func(Case) Model { return regModel{} }, Gen: genReg, Coq: coqReg},
 		"inbox": {Name: "inbox", Forced: true, New: newInboxInst, Model: func(Case) Model { return inboxModel{} }, Gen: genInbox, Coq: coqInbox},
